@@ -123,6 +123,7 @@ def check_run(case, ev):
     if len(set(b for l in case["lines"] for b in l["blocks"])) < sum(len(l["blocks"]) for l in case["lines"]):
         cls.append("repeated-secret")
     ev.case(sig if nt else case, nt, cls)
+    _note_groups(ev, [x[0] for x in inst[0]])
 
     def describe(i):
         ln = case["lines"][i]
@@ -158,6 +159,30 @@ def check_run(case, ev):
     if res[0][1] != res[1][1]:
         return Finding("meta/log-depends-on-secret-content", "%r vs %r" % (res[0][1][:5], res[1][1][:5]), case)
     return None
+
+
+_RX = []
+
+
+def _note_groups(ev, lines):
+    """Coverage statistic only (never part of a verdict): which of netconan's pattern groups is
+    the first to fire on the generated lines."""
+    try:
+        if not _RX:
+            from netconan.sensitive_item_removal import generate_default_sensitive_item_regexes
+
+            _RX.extend(generate_default_sensitive_item_regexes())
+        fired = set(ev.notes.get("groups_first_fired", []))
+        for line in lines:
+            text = " ".join(line.split())
+            for gi, grp in enumerate(_RX):
+                if any(rx.search(text) for rx, _ in grp):
+                    fired.add(gi)
+                    break
+        ev.notes["groups_first_fired"] = sorted(fired)
+        ev.notes["groups_total"] = [len(_RX)]
+    except Exception:
+        pass
 
 
 def check_standalone(case, ev):
